@@ -16,7 +16,7 @@ def run(ctx):
     vlib.model_check(ctx, "BigNatMC", timeout=300, workers=2)
     bins = pc.drivers(ctx, ("pow",))
     d = ctx.rundir("drv")
-    vlib.run_driver(ctx, bins["pow"], "record", d + "/t.ndjson", n=28 if q else 300, extra_env={"VERIF_MAXK": "5" if q else "8"}, timeout=3000)
+    vlib.run_driver(ctx, bins["pow"], "record", d + "/t.ndjson", n=24 if q else 300, extra_env={"VERIF_MAXK": "5" if q else "8", "VERIF_LENS": "56" if q else "200"}, timeout=3000)
     ev = vlib.read_ndjson(d + "/t.ndjson")
     vlib.note_events(ctx, ev)
     pc.judge(ctx, bins, ev, "Mine returned a nonce whose score is below the target / crashed the process / Score is not 3^z/len / lane test wrong")
